@@ -86,7 +86,7 @@ def _pre_tee(n, j0, j1, j2, o0, o1, o2):
     return 0 <= n <= N and 0 <= j0 <= N + 1 and 0 <= j1 <= N + 1 and 0 <= j2 <= N + 1
 
 
-def h_tee_close(n: int, j0: int, j1: int, j2: int, o0: int, o1: int, o2: int, viahandle: bool):
+def h_tee_close(n: int, j0: int, j1: int, j2: int, o0: int, o1: int, o2: int, viahandle: bool, more: bool):
     """
     pre: _pre_tee(n, j0, j1, j2, o0, o1, o2)
     post: _[0]
@@ -134,6 +134,15 @@ def h_tee_close(n: int, j0: int, j1: int, j2: int, o0: int, o1: int, o2: int, vi
                 done[c] = True
                 if r[0] == "exc":
                     ok = fail("tee:child-aclose-raised-%s" % type(r[1]).__name__) and ok
+                if more:
+                    # the remaining children go on after a sibling was closed
+                    for c2 in left:
+                        g2, e2 = D.take(kids[c2], 1)
+                        advanced[c2] = True
+                        if e2 == "stop":
+                            done[c2] = True
+                        elif e2 is not None:
+                            ok = fail("tee:sibling-broken-after-a-child-was-closed-%s" % type(e2).__name__) and ok
             if not st.is_released():
                 if all(advanced):
                     ok = fail("tee:source-not-released-after-last-child-closed", taken) and ok
@@ -278,7 +287,7 @@ def _grid_release():
 
 GRID = {
     "h_release": _grid_release,
-    "h_tee_close": lambda: [(n, a, b, 1, o, 0, 0, v) for n in range(3) for a in range(3) for b in range(3) for o in (0, 1) for v in (False, True)],
+    "h_tee_close": lambda: [(n, a, b, 1, o, 0, 0, v, m) for n in range(3) for a in range(3) for b in range(3) for o in (0, 1) for v in (False, True) for m in (False, True)],
     "h_groupby_close": lambda: [(n, 1, 1, 2, s, g, u, x, 0) for n in range(4) for s in range(4) for g in range(2) for u in (False, True) for x in ((0, 1, 2, 3, 5) if P("faults", False) else (0,))],
     "h_agg_proto": lambda: [(n, b, w) for n in (1, 2, 3) for b in range(n) for w in range(5)],
 }
@@ -331,6 +340,10 @@ def jobs(tier):
         for op in ("zip", "zip_longest", "chain", "merge"):
             add("h_release", op=op, S=3, N=1, mode="close", X=(0, 4), fl=fl)
             add("h_release", op=op, S=3, N=1, mode="fault", X=(4, 4), Y=(1, 7), Z=(0, 2), fl=fl)
+        # a user callable that raises StopAsyncIteration (fault kind 7) must not skip the release
+        for op in ("map", "filter", "takewhile", "accumulate_f", "starmap", "min", "sorted", "reduce", "nlargest"):
+            S_ = 1
+            add("h_release", op=op, S=S_, N=2, mode="fault", X=(3, 3), Y=(1, 5), Z=(7, 7), fl=fl, ffl=("adef" if fl == "acls" else "def"), b1=True)
         for op in AGGS1:
             add("h_release", op=op, S=1, N=N1, mode="close", fl=fl)
             add("h_release", op=op, S=1, N=N1, mode="fault", Y=(1, 2 * N1 + 2), Z=(0, 2), fl=fl, ffl=("adef" if fl == "acls" else "def"))
